@@ -578,7 +578,7 @@ func (t *ZeroAllocTokenizer) processBlockTag(content string) {
 
 	case "for":
 		// Process for loop with iterator(s) and collection
-		inPos := strings.Index(strings.ToLower(blockContent), " in ")
+		inPos := indexKeyword(blockContent, " in ")
 		if inPos != -1 {
 			iterators := strings.TrimSpace(blockContent[:inPos])
 			collection := strings.TrimSpace(blockContent[inPos+4:])
@@ -672,7 +672,7 @@ func (t *ZeroAllocTokenizer) processBlockTag(content string) {
 
 	case "include":
 		// Handle include with template path and optional context
-		withPos := strings.Index(strings.ToLower(blockContent), " with ")
+		withPos := indexKeyword(blockContent, " with ")
 		if withPos != -1 {
 			templatePath := strings.TrimSpace(blockContent[:withPos])
 			contextExpr := strings.TrimSpace(blockContent[withPos+6:])
@@ -698,7 +698,7 @@ func (t *ZeroAllocTokenizer) processBlockTag(content string) {
 	case "from":
 		// Handle from tag which has a special format:
 		// {% from "template.twig" import macro1, macro2 as alias %}
-		importPos := strings.Index(strings.ToLower(blockContent), " import ")
+		importPos := indexKeyword(blockContent, " import ")
 		if importPos != -1 {
 			// Extract template path and macros list
 			templatePath := strings.TrimSpace(blockContent[:importPos])
@@ -716,7 +716,7 @@ func (t *ZeroAllocTokenizer) processBlockTag(content string) {
 				macro = strings.TrimSpace(macro)
 
 				// Check for "as" alias
-				asPos := strings.Index(strings.ToLower(macro), " as ")
+				asPos := indexKeyword(macro, " as ")
 				if asPos != -1 {
 					// Extract macro name and alias
 					macroName := strings.TrimSpace(macro[:asPos])
@@ -751,7 +751,7 @@ func (t *ZeroAllocTokenizer) processBlockTag(content string) {
 	case "import":
 		// Handle import tag which allows importing entire templates
 		// {% import "template.twig" as alias %}
-		asPos := strings.Index(strings.ToLower(blockContent), " as ")
+		asPos := indexKeyword(blockContent, " as ")
 		if asPos != -1 {
 			// Extract template path and alias
 			templatePath := strings.TrimSpace(blockContent[:asPos])
@@ -1238,4 +1238,27 @@ func (t *ZeroAllocTokenizer) TokenizeOptimized() ([]Token, error) {
 	// Save and return result
 	t.result = t.tokenBuffer
 	return t.result, nil
+}
+
+// indexKeyword returns the byte index of the lower-case ASCII keyword kw in s,
+// ignoring the case of ASCII letters, or -1. The index refers to s itself
+// (lower-casing s first would shift it: some characters change their encoded
+// length with their case).
+func indexKeyword(s, kw string) int {
+	for i := 0; i+len(kw) <= len(s); i++ {
+		j := 0
+		for ; j < len(kw); j++ {
+			c := s[i+j]
+			if 'A' <= c && c <= 'Z' {
+				c += 'a' - 'A'
+			}
+			if c != kw[j] {
+				break
+			}
+		}
+		if j == len(kw) {
+			return i
+		}
+	}
+	return -1
 }
